@@ -232,6 +232,21 @@ package mysql
 //@   ensures case enc:    decLen(data[pos]) == encLen(uint64(len(value))) && decVal(data, pos) == uint64(len(value)) && data[pos] != 0xfb
 //@   ensures case body:   forall(k, 0, len(value), data[pos + encLen(uint64(len(value))) + k] == value[k])
 
+// ---------------------------------------------------------------- frames of the binary date/time formatters (used by C16)
+//@ property C16: FormatBinaryDate, FormatBinaryDateTime, FormatBinaryTime
+//@ func FormatBinaryDate
+//@   mode bv
+//@   may-panic when true
+//@   assigns \nothing
+//@ func FormatBinaryDateTime
+//@   mode bv
+//@   may-panic when true
+//@   assigns \nothing
+//@ func FormatBinaryTime
+//@   mode bv
+//@   may-panic when true
+//@   assigns \nothing
+
 // ---------------------------------------------------------------- C11 packet framing
 // io.ReadFull fills the whole buffer from the transport or fails (trusted; absorbs transport fragmentation)
 //@ trusted io.ReadFull
